@@ -773,8 +773,16 @@ func (st *state) emptyValueOf(typ string) *rp.Node {
 	return n
 }
 
-func (st *state) scalarValueNode() (typ string, arg reflect.Value, n *rp.Node) {
-	switch st.rng.Intn(4) {
+// scalarValueNode draws a primitive value; with prefer = the type the target holds now, half of the draws
+// keep that type ("overwrite an existing primitive with a value of the SAME type": an implementation
+// that then edits its one-of wrapper in place is only visible when the wrapper is shared with a copy).
+func (st *state) scalarValueNode(prefer string) (typ string, arg reflect.Value, n *rp.Node) {
+	k := st.rng.Intn(4)
+	if i, ok := map[string]int{"Str": 0, "Int": 1, "Double": 2, "Bool": 3}[prefer]; ok && st.rng.Intn(2) == 0 {
+		k = i
+		st.c.Observe("overwrite_primitive_same_type", 1)
+	}
+	switch k {
 	case 0:
 		arg = reflect.ValueOf(st.fl.String())
 		typ = "Str"
@@ -808,7 +816,11 @@ func (st *state) mkMapPut(p *pos) *step {
 	case 3:
 		name, val = "PutEmptyBytes", st.emptyValueOf("Bytes")
 	default:
-		typ, arg, nd := st.scalarValueNode()
+		prefer := ""
+		if old := n.Field(key); old != nil {
+			prefer = old.Leaf
+		}
+		typ, arg, nd := st.scalarValueNode(prefer)
 		name, val, args = "Put"+typ, nd, []reflect.Value{arg}
 	}
 	args = append([]reflect.Value{reflect.ValueOf(key)}, args...)
@@ -989,13 +1001,69 @@ func (st *state) mkValueSet(p *pos) *step {
 	case 2:
 		name, val = "SetEmptyBytes", st.emptyValueOf("Bytes")
 	default:
-		typ, arg, nd := st.scalarValueNode()
+		typ, arg, nd := st.scalarValueNode(n.Leaf)
 		name, val, args = "Set"+typ, nd, []reflect.Value{arg}
 	}
 	return &step{op: "ValueSet", kind: "value", recv: p, mut: []int{p.r},
 		desc:  fmt.Sprintf("%s.%s(%s) [was %s]", st.where(p), name, short(val.Kids0Leaf()), n.Leaf),
 		impl:  func() { st.call(v, p.ti, name, args...) },
 		model: func() { n.Leaf, n.Kids = val.Leaf, val.Kids }}
+}
+
+// mkOverwriteSameType overwrites a primitive pcommon.Value with another value of the type it already has.
+func (st *state) mkOverwriteSameType(p *pos) *step {
+	v, n := st.resolve(p), p.n
+	var arg reflect.Value
+	switch n.Leaf {
+	case "Str":
+		arg = reflect.ValueOf(st.fl.String())
+	case "Int":
+		arg = st.fl.Scalar(reflect.TypeOf(int64(0)))
+	case "Double":
+		arg = st.fl.Scalar(reflect.TypeOf(float64(0)))
+	case "Bool":
+		arg = reflect.ValueOf(n.Kids0Leaf() != "true") // the other boolean, so that the write is visible
+	default:
+		return nil
+	}
+	typ := n.Leaf
+	val := leafNode(rp.LeafOf(arg))
+	return &step{op: "OverwriteSameType", kind: "value", recv: p, mut: []int{p.r},
+		desc:  fmt.Sprintf("%s.Set%s(%s) [was %s: same type, after a copy]", st.where(p), typ, short(val.Leaf), typ),
+		impl:  func() { st.call(v, p.ti, "Set"+typ, arg) },
+		model: func() { n.Kids = []*rp.Node{val} }}
+}
+
+// afterCopyOverwrites schedules, behind a CopyTo, overwrites of primitives of unchanged type inside the copy
+// and inside the source (attributes, bodies, nested slice / map elements): neither side may follow the other.
+func (st *state) afterCopyOverwrites(src, dst *pos) {
+	if st.roots[dst.r].ro {
+		return
+	}
+	pick := func(side *pos) func() *step {
+		return func() *step {
+			if st.roots[side.r].ro || st.roots[side.r].m.At(side.path) != side.n {
+				return nil
+			}
+			prims := filter(st.subPositions(side), func(c *pos) bool {
+				return c.ti.Kind == rp.KValue && (c.n.Leaf == "Str" || c.n.Leaf == "Int" || c.n.Leaf == "Double" || c.n.Leaf == "Bool")
+			})
+			if len(prims) == 0 {
+				return nil
+			}
+			st.c.Observe("overwrite_same_type_after_copy", 1)
+			c := prims[st.rng.Intn(len(prims))]
+			return st.mkOverwriteSameType(&c)
+		}
+	}
+	d, s := *dst, *src
+	st.pendingSeq = []func() *step{pick(&d)}
+	if st.rng.Intn(2) == 0 {
+		st.pendingSeq = append(st.pendingSeq, pick(&s))
+	}
+	if st.rng.Intn(2) == 0 {
+		st.pendingSeq = append(st.pendingSeq, pick(&d))
+	}
 }
 
 func (st *state) mkRawSet(p *pos) *step {
